@@ -99,8 +99,8 @@ fn public_memory_capacity(ctx: &Ctx, rep: &mut Report) {
             None => continue,
         };
         let base = serde_json::to_value(&pf.loaded.proof.public_input).unwrap();
-        // a trace of 2^16 rows (every builtin of every layout fits at least once; pages stay small)
-        let lt = 16u32;
+        // a trace of 2^16 rows (2^20 for the layout whose builtins need more); pages stay small
+        let lt = if *layout == "starknet_with_keccak" { 20u32 } else { 16u32 };
         let accepts = |n: usize| -> Option<bool> {
             let mut v = base.clone();
             v["log_n_steps"] = json!(format!("{:#x}", lt - 4));
@@ -118,9 +118,9 @@ fn public_memory_capacity(ctx: &Ctx, rep: &mut Report) {
             })
         };
         // capacity <= trace length: bisect on [0, 2^lt]
-        let (mut lo, mut hi) = (0usize, (1usize << lt) + 1); // accepts(lo) expected true, accepts(hi) expected false
+        let (mut lo, mut hi) = (0usize, (1usize << (lt - 2)) + 1); // accepts(lo) expected true, accepts(hi) expected false
         if accepts(lo) != Some(true) || accepts(hi) != Some(false) {
-            rep.cap(&format!("{}: public-memory capacity not bracketed (evaluator refuses an empty page or accepts 2^{}+1 cells)", layout, lt));
+            rep.cap(&format!("{}: public-memory capacity not bracketed (evaluator refuses an empty page or accepts 2^{}+1 cells)", layout, lt - 2));
             continue;
         }
         while hi - lo > 1 {
